@@ -74,21 +74,31 @@ def plan(seed, tier="quick", index=0):
     stratum = rng.choice(["boundary", "boundary", "pairs", "random", "mixed", "concurrent"])
     if stratum == "concurrent":
         nthreads = rng.choice([2, 2, 3, 4])
-        threads = [[{"compressed": rng.random() < 0.5, "tape": rng.choice([[], [], ["ONE"], ["BOUND-1"], [{"frac": rng.random()}]])} for _ in range(rng.choice([1, 1, 2]))] for _ in range(nthreads)]
-        horizon = 22000 * sum(len(t) for t in threads)
-        strategy = rng.choice(
+        keys_only = rng.random() < 0.4  # short operations: the windows inside key() itself matter
+        threads = [
             [
-                ["random", 0.0003, 0.0003],
-                ["random", 0.002, 0.002],
-                ["random", 0.01, 0.01],
-                ["hold", 1, horizon, 60000],
-                ["hold", 2, horizon, 60000],
-                ["hold", 3, horizon, 20000],
-                ["pct", 1, horizon],
-                ["pct", 2, horizon],
-                ["rr", rng.choice([50, 500, 5000])],
+                {"compressed": rng.random() < 0.5, "pub": not keys_only, "tape": rng.choice([[], [], ["ONE"], ["BOUND-1"], [{"frac": rng.random()}]])}
+                for _ in range(rng.choice([3, 5, 8]) if keys_only else rng.choice([1, 1, 2]))
             ]
-        )
+            for _ in range(nthreads)
+        ]
+        if keys_only:
+            strategy = rng.choice([["random", 0.05, 0.05], ["random", 0.2, 0.2], ["random", 0.5, 0.5], ["hold", 3, 200, 30], ["hold", 6, 400, 60], ["pct", 3, 300], ["rr", rng.choice([1, 2, 5])]])
+        else:
+            horizon = 22000 * sum(len(t) for t in threads)
+            strategy = rng.choice(
+                [
+                    ["random", 0.0003, 0.0003],
+                    ["random", 0.002, 0.002],
+                    ["random", 0.01, 0.01],
+                    ["hold", 1, horizon, 60000],
+                    ["hold", 2, horizon, 60000],
+                    ["hold", 3, horizon, 20000],
+                    ["pct", 1, horizon],
+                    ["pct", 2, horizon],
+                    ["rr", rng.choice([50, 500, 5000])],
+                ]
+            )
         return {"property": PROPERTY, "seed": seed, "stratum": stratum, "threads": threads, "strategy": strategy, "ops": []}
     ops = []
     while len(ops) < nops:
@@ -127,15 +137,20 @@ def _execute_concurrent(sc, tape, keep_events):
     ent = SimEntropy(log, sub_rng(sc["seed"], "entropy"), max_draws_per_op=10**9)
     holder = {}
     results = {}
+    draws_of = {}
     per_thread = {}
     orig_randbelow = ent.randbelow
+
+    last_draw = {}
 
     def randbelow(bound):
         tid = holder["sched"].me()
         tp = per_thread.get(tid)
         if tp:
             ent.tape, ent.pos = [tp.pop(0)], 0
-        return orig_randbelow(bound)
+        v = orig_randbelow(bound)
+        last_draw[tid] = v
+        return v
 
     ent.randbelow = randbelow
 
@@ -145,8 +160,9 @@ def _execute_concurrent(sc, tape, keep_events):
                 per_thread[holder["sched"].me()] = list(op["tape"])
                 try:
                     key = keys.key()
-                    pub = keys.pub(bytes(key), compressed=op["compressed"])
+                    pub = keys.pub(bytes(key), compressed=op["compressed"]) if op.get("pub", True) else b""
                     results[(ti, oi)] = ("ok", bytes(key), bytes(pub))
+                    draws_of[(ti, oi)] = last_draw.get(holder["sched"].me())
                 except Exception as e:  # noqa
                     results[(ti, oi)] = ("raised", f"{type(e).__name__}: {e}"[:200], b"")
 
@@ -163,6 +179,11 @@ def _execute_concurrent(sc, tape, keep_events):
         S.Sched.__init__ = init
         try:
             sched, died = callersim.run_callers(sub_rng(sc["seed"], "sched"), log, fns, sc["strategy"], [ecmath.__file__, utils.__file__, keys.__file__], tape=tape)
+        except S.StepCapExceeded as e:
+            res.violations.append(Violation("nontermination", "concurrent callers", str(e)).to_json())
+            res.digest = log.digest()
+            res.nontrivial = True
+            return res
         finally:
             S.Sched.__init__ = orig_init
     viols = []
@@ -183,12 +204,25 @@ def _execute_concurrent(sc, tape, keep_events):
         if len(key) != 32 or not (1 <= k <= N - 1):
             viols.append(Violation("key-out-of-range", where, f"key={k:#x}", feats))
             continue
+        if not op.get("pub", True):
+            n_ok += 1
+            probes.hit("concurrent-key-in-range")
+            continue
         want = EC.pub_bytes(k, op["compressed"])
         if pub != want:
             viols.append(Violation("pubkey-mismatch", where + f" compressed={op['compressed']}", f"k={k:#x} got {pub.hex()} want {want.hex()} (concurrent callers)", feats))
         else:
             n_ok += 1
             probes.hit("concurrent-pubkey-correct")
+    by_key = {}
+    for ko in sorted(results):
+        if results[ko][0] == "ok":
+            by_key.setdefault(results[ko][1], []).append(ko)
+    for kb in sorted(by_key):
+        ops_ = by_key[kb]
+        ds = {draws_of.get(o) for o in ops_}
+        if len(ops_) > 1 and len(ds) > 1:
+            viols.append(Violation("key-collision", f"ops={ops_}", f"callers that drew {sorted(hex(d) for d in ds if d is not None)} were handed the same key {kb.hex()} (concurrent callers)", {"via": "concurrent"}))
     seen = set()
     for v in viols:
         kk = (v.clause, v.key)
